@@ -101,12 +101,15 @@ def _prog(ctx, cfg):
                    'kind matches (a view never frees its parent).'),
       not_decided='absence of out-of-bounds word accesses in general, signed overflow')
 def c11(ctx):
-    from . import resources as R
+    from . import resources as R, align as AL
     out = []
     for cfg in _configs(ctx):
         prog = _prog(ctx, cfg)
         lab = _label(cfg)
         out.append((lab, R.rule_E1(ctx, prog, lab)))
+        out.append((lab, AL.rule_D0(ctx, prog, lab)))
+        out.append((lab, AL.rule_D1(ctx, prog, lab)))
+        out.append((lab, AL.rule_D2(ctx, prog, lab)))
     return out
 
 
@@ -126,10 +129,13 @@ MOVERS = {'mzd_copy', 'mzd_copy_row', 'mzd_set_ui', 'mzd_submatrix', 'mzd_concat
                    'well-formed unrolled tail family whose last member is masked, by a frozen kernel contract (counter and final masked '
                    'store re-checked structurally), by whole-word XOR from lookup tables that are only ever written by table builders '
                    '(C2 at every call site), or by a reasoned exception. C3/C3b: observers mask the last word. A1: no write effect on '
-                   'const operands through casts and callees. A2: header fields written only by the two constructors.'),
+                   'const operands through casts and callees. A2: header fields written only by the two constructors. D0/D1/D2: '
+                   'every function dereferencing __m128i* is a known phase-assuming kernel or tests operand phases itself; along every '
+                   'call chain into such a kernel the tables are windows of local owners whose column offset, folded under both '
+                   'hypotheses for the destination\'s 16-byte phase, matches it; every window starts on a word boundary.'),
       not_decided='that results equal those on standalone copies (value level); index arithmetic inside bit-range primitives')
 def c09(ctx):
-    from . import masks as M, const_rules as CR
+    from . import masks as M, const_rules as CR, align as AL
     out = []
     for cfg in _configs(ctx, extra=[dict(frontend.host_config(), sse2=0)]):
         prog = _prog(ctx, cfg)
@@ -139,6 +145,9 @@ def c09(ctx):
         out.append((lab, M.rule_C3(ctx, prog, lab)))
         out.append((lab, CR.rule_A1(ctx, prog, lab)))
         out.append((lab, CR.rule_A2(ctx, prog, lab)))
+        out.append((lab, AL.rule_D0(ctx, prog, lab)))
+        out.append((lab, AL.rule_D1(ctx, prog, lab)))
+        out.append((lab, AL.rule_D2(ctx, prog, lab)))
     return out
 
 
